@@ -166,11 +166,12 @@ func (p *parser) parse(t *token) {
 			// Accept top level x => y expression as a singleton hash
 			key := p.d.PopLast()
 			tk = p.element(p.nextToken())
-			if tk == nil {
-				tk = p.handleTypeArgs()
-				if tk.i == end {
-					p.d.Add(singleMap(key, p.d.PopLast()))
-				}
+			if tk != nil {
+				panic(badSyntax(tk, exValue))
+			}
+			tk = p.handleTypeArgs()
+			if tk.i == end {
+				p.d.Add(singleMap(key, p.d.PopLast()))
 			}
 		}
 		if tk.i != end {
